@@ -144,6 +144,25 @@ let step line =
   | ["K"; name; "dom"; n] ->
       let k = domain_log (nat n) in
       Printf.printf "K %s %d %s %s\n" name (int_of_nat (domain_size (nat n))) (hex_of_fr (domain_gen k)) (hex_of_fr (size_inv k))
+  | "Z" :: name :: "commit" :: x :: kd :: cs ->
+      let p = List.map fr cs in
+      Printf.printf "Z %s %s guard=%b\n" name (hex_of_fr (commit (fr x) p)) (commit_guard (nat kd) p)
+  | "Z" :: name :: "batch" :: x :: vs ->
+      let rec grp = function z :: w :: v :: c :: tl -> { o_z = fr z; o_w = fr w; o_v = fr v; o_c = fr c } :: grp tl | _ -> [] in
+      Printf.printf "Z %s %b\n" name (batch_all (fr x) (grp vs))
+  | "Z" :: name :: "aggw" :: point :: v :: rest ->
+      let rec split acc cur = function
+        | "|" :: tl -> split (List.rev cur :: acc) [] tl
+        | y :: tl -> split acc (y :: cur) tl
+        | [] -> List.rev (List.rev cur :: acc) in
+      let polys = List.map (List.map fr) (split [] [] rest) in
+      Printf.printf "Z %s %s\n" name (String.concat " " (List.map hex_of_fr (ptrim (aggregate_witness polys (fr point) (fr v)))))
+  | "Z" :: name :: "flatten" :: v :: rest ->
+      let rec grp = function e :: c :: tl -> (fr e, fr c) :: grp tl | _ -> [] in
+      let (e, c) = flatten (grp rest) (fr v) in
+      Printf.printf "Z %s %s %s\n" name (hex_of_fr e) (hex_of_fr c)
+  | ["Z"; name; "capacity"; c; deg] ->
+      Printf.printf "Z %s %b %b\n" name (direct_route_ok (nat c) (nat deg)) (compressed_route_ok (nat c) (nat deg))
   | ["snap"] -> snap ()
   | ["sat"] -> sat ()
   | _ -> Printf.printf "ERR unknown op: %s\n" line
